@@ -236,22 +236,71 @@ func GuardStrings(b *ssa.BasicBlock) []string {
 
 func negate(s string) string {
 	if strings.HasPrefix(s, "!") {
-		return s[1:]
+		return canonGuard(s[1:])
 	}
-	// flip simple comparisons
-	for _, p := range [][2]string{{" == ", " != "}, {" != ", " == "}} {
-		if strings.HasPrefix(s, "(") && strings.HasSuffix(s, ")") && strings.Count(s, p[0]) == 1 && strings.Count(s, "(") == 1 {
-			return strings.Replace(s, p[0], p[1], 1)
-		}
+	if f, ok := flipTopComparison(s); ok {
+		return f
 	}
 	return "!" + s
+}
+
+// flipTopComparison: s = "(L == R)" or "(L != R)" with the operator at
+// parenthesis depth 1 exactly once: returns the complementary comparison.
+func flipTopComparison(s string) (string, bool) {
+	if !strings.HasPrefix(s, "(") || !strings.HasSuffix(s, ")") {
+		return "", false
+	}
+	depth, at, n := 0, -1, 0
+	inStr := false
+	for i := 0; i < len(s); i++ {
+		c := s[i]
+		if c == '"' && (i == 0 || s[i-1] != '\\') {
+			inStr = !inStr
+		}
+		if inStr {
+			continue
+		}
+		switch c {
+		case '(', '[', '{':
+			depth++
+		case ')', ']', '}':
+			depth--
+			if depth == 0 && i != len(s)-1 {
+				return "", false // "(a)(b)": the outer parentheses do not match each other
+			}
+		case ' ':
+			if depth == 1 && i+4 <= len(s) && (s[i:i+4] == " == " || s[i:i+4] == " != ") {
+				at = i
+				n++
+			}
+		}
+	}
+	if n != 1 {
+		return "", false
+	}
+	op := " != "
+	if s[at:at+4] == " != " {
+		op = " == "
+	}
+	return s[:at] + op + s[at+4:], true
+}
+
+// canonGuard removes a leading negation from a negated equality test:
+// "!(a != b)" and "(a == b)" are the same guard.
+func canonGuard(s string) string {
+	if strings.HasPrefix(s, "!") {
+		if f, ok := flipTopComparison(s[1:]); ok {
+			return f
+		}
+	}
+	return s
 }
 
 // HasGuard reports whether block b has a guard whose rendering equals one of want.
 func HasGuard(b *ssa.BasicBlock, want ...string) bool {
 	for _, g := range GuardStrings(b) {
 		for _, w := range want {
-			if g == w {
+			if g == w || canonGuard(g) == canonGuard(w) {
 				return true
 			}
 		}
